@@ -32,7 +32,11 @@ func bigTreeCosts(n int, order string) (checked int, fail string) {
 		}
 	}
 	for j, i := range idx {
-		if _, err := t.Set(key(i), []byte("v")); err != nil {
+		val := []byte("v")
+		if i%7 == 3 {
+			val = []byte{} // empty values are legal contents
+		}
+		if _, err := t.Set(key(i), val); err != nil {
 			return 0, err.Error()
 		}
 		if j == n/2 {
@@ -81,6 +85,14 @@ func bigTreeCosts(n int, order string) (checked int, fail string) {
 			if c := count(func() { _, _, _ = it.GetByIndex(int64(i)) }); c > 2*h+2 {
 				return checked, fmt.Sprintf("%s/%d keys: GetByIndex(%d) read %d stored nodes > 2h+2 = %d", order, n, i, c, 2*h+2)
 			}
+		}
+	}
+	// out-of-range ranks
+	for _, r := range []int64{-1, int64(n), int64(n) + 1, 1 << 40} {
+		r := r
+		checked++
+		if c := count(func() { _, _, _ = it.GetByIndex(r) }); c > 2*h+2 {
+			return checked, fmt.Sprintf("%s/%d keys: GetByIndex(%d) (out of range) read %d stored nodes > 2h+2 = %d", order, n, r, c, 2*h+2)
 		}
 	}
 	return checked, ""
